@@ -488,3 +488,18 @@ package xmpp
 //@   emits Write, PacketRead, StanzaRead, AckReqRead, StreamErrRead, TokenRead
 //@   at call Marshal assert [C11.resume.id,C09.resume.h] typeof($v) == stanza.SMResume && $v.(stanza.SMResume).PrevId == s.SMState.Id && $v.(stanza.SMResume).H == addr(s.SMState.Inbound)
 //@   at call Write assert [C11.resume.wire] bytes($p) == xmlOf(last(Marshaled)) && typeof(last(Marshaled)) == stanza.SMResume
+//
+//@ func (stanza.StanzaErrorGroup).GroupErrorName(g) (name)
+//
+//@ func (*xmpp.Session).EnableStreamManagement(s, o)
+//@   requires s != nil && o != nil && s.transport != nil
+//@   ensures [C03.sticky.enable] old(s.err) != nil ==> s.err == old(s.err) && count(Write) == old(count(Write)) && count(PacketRead) == old(count(PacketRead)) && smStateKept(s)
+//@   ensures [C11.enable.skip]   (old(s.err) == nil && (!old(stanza.smOffered(s.Features)) || !old(o.StreamManagementEnable))) ==> s.err == nil && count(Write) == old(count(Write)) && count(PacketRead) == old(count(PacketRead)) && smStateKept(s)
+//@   ensures [C11.enable.once]   count(Write) <= old(count(Write)) + 1 && count(PacketRead) <= old(count(PacketRead)) + 1
+//@   ensures [C11.enable.ok]     (old(s.err) == nil && newReadIs(stanza.SMEnabled)) ==> s.err == nil && atlast(Write) < atlast(PacketRead) && s.SMState.Id == last(PacketRead).(stanza.SMEnabled).Id && s.SMState.Inbound == 0 && s.SMState.UnAckQueue != nil && fresh(s.SMState.UnAckQueue) && len(s.SMState.UnAckQueue.Uslice) == 0
+//@   ensures [C11.enable.noresume] (old(s.err) == nil && newReadIs(stanza.SMEnabled) && !parsesTrue(last(PacketRead).(stanza.SMEnabled).Resume)) ==> !o.StreamManagementEnable
+//@   ensures [C11.enable.needs]  (old(s.err) == nil && s.err == nil && old(stanza.smOffered(s.Features)) && old(o.StreamManagementEnable)) ==> newReadIs(stanza.SMEnabled) && count(Write) == old(count(Write)) + 1
+//@   ensures s.transport == old(s.transport) && s.Features == old(s.Features) && s.BindJid == old(s.BindJid)
+//@   assigns s.err, s.SMState, o.StreamManagementEnable
+//@   emits Write, PacketRead, StanzaRead, AckReqRead, StreamErrRead, TokenRead, Marshaled
+//@   at call Write assert [C11.enable.wire] bytes($p) == xmlOf(last(Marshaled)) && typeof(last(Marshaled)) == stanza.SMEnable
